@@ -52,7 +52,7 @@ def main() -> int:
         for t, v in list(grlib.INLINE_IMAGES.items()):
             if v[0] == "bad":
                 run.ob("R-PBC", "inline minimum image", _show(t)[:70], False, "an inline re-implementation of the minimum image equals R - (mask (.) nearest(R H^-1)) H "
-                       "(rows of H are the cell vectors)", _show(t)[:200], witness=v[1])
+                       "(rows of H are the cell vectors)", _show(t)[:200], witness=v[1], sound=True)   # v[1] is a concrete cell / displacement on which the extracted term differs
             elif v[0] == "ok":
                 run.ob("R-PBC", "inline minimum image", _show(t)[:70], True, "inline re-implementation of the minimum image verified against the reference form (frame typing + algebra)", "")
         if tier == "thorough" and not a.replay and not os.environ.get("VERIF_NO_SELFTEST"):
